@@ -359,33 +359,32 @@ Fixpoint truncate_up (fuel : nat) (p : pos) (toSubtract : N) (m : list N) : opti
       end
   end.
 
-(* truncateExtras(). Second component: leafTruncate() executed `node >>= 64` (idsToKeep == 0), which is
-   undefined behaviour in C++; the value modelled is what x86-64 computes (shift count taken mod 64:
-   the leaf keeps all its 1s). *)
-Definition truncate_extras (c : cfg) (m : list N) : option (list N) * bool :=
+(* truncateExtras(); leafTruncate(pos, idsToKeep): node = idsToKeep ? (node >> (BitsPerLeaf - idsToKeep)) : 0.
+   None = one of its assert()s failed *)
+Definition truncate_extras (c : cfg) (m : list N) : option (list N) :=
   let p := mkPos (tree_height c - 1) (cap c / BitsPerLeaf) in
   let keep := cap c mod BitsPerLeaf in
   let node := getw m (nodes_before p) in
   if node =? ones64 then                                        (* leafTruncate: assert(node == max) *)
-    let ub := keep =? 0 in
-    let node' := if ub then node else node / 2 ^ (BitsPerLeaf - keep) in
+    let node' := if keep =? 0 then 0 else node / 2 ^ (BitsPerLeaf - keep) in
     let m1 := setw m (nodes_before p) node' in
     let rightLeaves := leaf_count c - requested_leaves (cap c) in
+    (* zeroes the leaves to the right of pos except the last one, which keeps its 1s (the counters make it unreachable) *)
     let m2 := if 1 <? rightLeaves then fill_n m1 (nodes_before p + 1) (rightLeaves - 1) 0 else m1 in
-    (truncate_up 40 p (BitsPerLeaf - keep) m2, ub)
-  else (None, false).
+    truncate_up 40 p (BitsPerLeaf - keep) m2
+  else None.
 
 (* PageStack(config): zero-filled shared memory; createFull: makeFullBeforeSharing(), size_ = capacity *)
-Definition construct (c : cfg) (full : bool) : option shared * bool :=
+Definition construct (c : cfg) (full : bool) : option shared :=
   let m0 := zeros (N.to_nat (node_count c)) in
   if full then
     let m1 := fill_all c m0 in
-    if cap c =? leaf_count c * BitsPerLeaf then (Some (mkShared (cap c) m1), false)
+    if cap c =? leaf_count c * BitsPerLeaf then Some (mkShared (cap c) m1)
     else match truncate_extras c m1 with
-         | (Some m2, ub) => (Some (mkShared (cap c) m2), ub)
-         | (None, ub) => (None, ub)
+         | Some m2 => Some (mkShared (cap c) m2)
+         | None => None
          end
-  else (Some (mkShared 0 m0), false).
+  else Some (mkShared 0 m0).
 
 (* createFull = false: page number i+1 (i < capacity) starts in the hands of client i mod n *)
 Fixpoint deal (k : nat) (capacity n t : N) : list N :=
@@ -454,18 +453,18 @@ Fixpoint drain (k : nat) (c : cfg) (s : shared) (acc : list N) : drained :=
 Inductive outcome :=
 | OutCtorCrash
 | OutFuel
-| OutRun (st : state) (evs : list (N * event)) (steps : N) (d : drained) (ub : bool).
+| OutRun (st : state) (evs : list (N * event)) (steps : N) (d : drained).
 
 Definition run_case (capacity : N) (full : bool) (scripts : list (list op)) (sched : list N) : outcome :=
   let c := measure capacity in
   match construct c full with
-  | (None, _) => OutCtorCrash
-  | (Some s0, ub) =>
+  | None => OutCtorCrash
+  | Some s0 =>
       let st0 := mkState s0 (init_threads capacity full scripts) in
       let '(st1, e1, n1) := exec c st0 sched in
       match run_rr (rr_fuel c (ths st1)) c st1 with
       | None => OutFuel
       | Some (st2, e2, n2) =>
-          OutRun st2 (e1 ++ e2) (n1 + n2) (drain (N.to_nat capacity + 3) c (sh st2) []) ub
+          OutRun st2 (e1 ++ e2) (n1 + n2) (drain (N.to_nat capacity + 3) c (sh st2) [])
       end
   end.
